@@ -253,8 +253,11 @@ class GridPoints:
         self._grid_mapping_table = None
 
         if self._is_shift is None:
+            # Arbitrary (neither zero nor half) shift: the shifted grid is not
+            # mapped onto itself by q -> -q, so no reduction at all is done.
             self._is_mesh_symmetry = False
-            self._is_shift = self._shift2boolean(None)
+            self._is_time_reversal = False
+            self._is_shift = self._shift2boolean(None, is_gamma_center=is_gamma_center)
             self._set_grid_points()
             self._ir_qpoints += q_mesh_shift / self._mesh
             self._fit_qpoints_in_BZ()
